@@ -340,7 +340,9 @@ func (e *cpuEnv) runControl(l *explore.Local, c ctlCase) *explore.Fail {
 	return nil
 }
 
-var c04Alphabet = [][]uint8{{0x00}, {0xfb}, {0xf3}, {0xd9}, {0x3c}, {0xe0, 0x0f}, {0xe0, 0xff}, {0x3e, 0x00}, {0x3e, 0x1f}}
+// the last two are JR NZ,+0 and JR Z,+0: with the flags the programs start from one is taken and one is not (conditional
+// instructions are the ones that can finish before their last micro-op; a dispatch may follow either kind)
+var c04Alphabet = [][]uint8{{0x00}, {0xfb}, {0xf3}, {0xd9}, {0x3c}, {0xe0, 0x0f}, {0xe0, 0xff}, {0x3e, 0x00}, {0x3e, 0x1f}, {0x20, 0x00}, {0x28, 0x00}}
 
 type c04Block struct {
 	Fam  string   `json:"fam"`
@@ -439,7 +441,7 @@ func progs(n int, yield func([]int) bool) {
 func init() {
 	register("C04", "model_checking", func(c *Ctx) {
 		if c.R != nil {
-			c.R.Rule = "(a) complete table IE(32) x IF(32) x IME(2) (+ unused high bits) at an instruction boundary; (b) every program of the length bound over {NOP, EI, DI, RETI, INC A, LDH (0F),A, LDH (FF),A, LD A,00, LD A,1F} x initial IME x IE in {00,1F,01,04,10,05} x one interrupt request of every source raised before every machine cycle 0..13 (and none), and for programs of up to 2 instructions (thorough 3) every pair of requests; the real CPU runs cycle by cycle, the reference control machine boundary by boundary; compared at every boundary: boundary times (dispatch = 5 cycles), all registers, IF, IE, pushed return address"
+			c.R.Rule = "(a) complete table IE(32) x IF(32) x IME(2) (+ unused high bits) at an instruction boundary; (b) every program of the length bound over {NOP, EI, DI, RETI, INC A, LDH (0F),A, LDH (FF),A, LD A,00, LD A,1F, JR NZ,+0, JR Z,+0} x initial IME x IE in {00,1F,01,04,10,05} x one interrupt request of every source raised before every machine cycle 0..13 (and none), and for programs of up to 2 instructions (thorough 3) every pair of requests; the real CPU runs cycle by cycle, the reference control machine boundary by boundary; compared at every boundary: boundary times (dispatch = 5 cycles), all registers, IF, IE, pushed return address"
 			c.R.Assumptions = []string{"a request arriving while a dispatch is in progress: which source wins is unspecified; required: vector and cleared IF bit belong to the same interrupt, which is the one selected at the boundary or the highest-priority one pending with the late request (the case ends there)", "the IME flag itself is not observed, only its behavioural effect", "HALT directly after EI is outside this alphabet (C05 covers HALT)"}
 		}
 		explore.Product(c.R, "boundary-table", explore.PartOpt{Bound: "one boundary + following instruction", Domain: "IE 0-31 x IF 0-31 x IME x high bits {00,E0}; again with the stack placed so that the low byte of the return address is pushed onto IE (SP=0001) or IF (SP=FF11) x 4 code addresses"},
